@@ -461,10 +461,10 @@ def stable_hash(s):
 
 def count_events(path, ev):
     n = 0
-    key = '"ev":"%s"' % ev
+    keys = ('"ev":"%s"' % ev, '"ev": "%s"' % ev)
     with open(path) as f:
         for line in f:
-            if key in line:
+            if keys[0] in line or keys[1] in line:
                 n += 1
     return n
 
@@ -491,7 +491,8 @@ def validate_trace(ctx, module, trace, stage, run_ev, env=None, cfg=None, timeou
             detail["first_unmatched_event"] = json.loads(lines[i - 1])
         # the run this event belongs to
         j = i - 1
-        while j > 0 and ('"ev":"%s"' % run_ev) not in lines[j - 1 if j > len(lines) else j]:
+        while j > 0 and ('"ev":"%s"' % run_ev) not in lines[j - 1 if j > len(lines) else j] \
+                and ('"ev": "%s"' % run_ev) not in lines[j - 1 if j > len(lines) else j]:
             j -= 1
         if j < len(lines):
             detail["run_start_event"] = json.loads(lines[j])
